@@ -145,7 +145,9 @@ def render_game(g, style, q):
     den = {}
     parts = []
     nl = "\n        " if style % 2 else " "
-    for key in ("rewards", "players", "transition_list", "final_states"):
+    order = ("rewards", "players", "transition_list", "final_states")
+    order = order[style % 4:] + order[:style % 4]          # the four fields in any (rotated) order
+    for key in order:
         if key not in g:
             continue
         val = g[key]
